@@ -40,15 +40,8 @@ package federation
 //@   call flattener.applies assert approved == fragment && arg2 == fragment && arg1 == typ
 //@   call flattener.flattenFragments assert approved == fragment && arg1 == fragment.SelectionSet && arg2 == typ && arg3 == target
 
-//@ func Planner.planObject
-//@   requires e != nil && typ != nil && selectionSet != nil
-//@   ghost approved *graphql.Selection
-//@   call ShouldIncludeNode assert arg0 == selection.Directives
-//@   call ShouldIncludeNode ghost approved = ite(ret0 && ret1 == nil, selection, nil)
-//@   call append#1 assert approved == selection
-//@   call append#2 assert approved == selection
-//@   call append#3 assert approved == selection
-//@   call Planner.selectService assert approved == selection && arg3 == selection
+// (Planner.planObject re-checks the directives of the selections it is handed; since flatten filters every occurrence
+// first - below - that check is redundant, and it is deliberately not under contract: removing it does not break C19.)
 
 // ---- C09 (folds): a service's schema is the fold of ALL of its versions - each step merges the running result with
 // the next version in the requested mode, and every version of the service is handed to the fold, in sorted order.
